@@ -638,14 +638,14 @@ def run(ctx):
     # ---- trait vectors
     rng = ctx.rng('traits')
     specs = []
-    specs += qcow_specs(rng, ctx.pick(2500, 60000))
-    specs += vmdk_specs(rng, ctx.pick(2500, 60000))
+    specs += qcow_specs(rng, ctx.pick(2500, 250000))
+    specs += vmdk_specs(rng, ctx.pick(2500, 250000))
     for pert in FOOTER_PERTS:
         specs.append({'gen': 'vmdk', 'params': {'footer': True, 'footer_pert': pert}})
         specs.append({'gen': 'vmdk', 'params': {'footer': True, 'footer_pert': pert, 'ctype': 'streamOptimized', 'desc_num': 2}})
-    specs += other_specs(rng, ctx.pick(2000, 40000))
-    specs += text_specs(rng, ctx.pick(150, 3000))
-    cli_budget = ctx.pick(32, 400)
+    specs += other_specs(rng, ctx.pick(2000, 150000))
+    specs += text_specs(rng, ctx.pick(150, 10000))
+    cli_budget = ctx.pick(32, 800)
     step = max(1, (len(specs) // ctx.nshards) // max(1, cli_budget // ctx.nshards))
     mycount = 0
     for j, spec in enumerate(specs):
